@@ -3,6 +3,7 @@
 
 pub mod c03;
 pub mod c04;
+pub mod c14;
 pub mod c18;
 pub mod degenerate;
 
@@ -16,6 +17,7 @@ pub struct Plan {
     /// counters that must be > 0 for the run to count as having observed anything
     pub required: &'static [&'static str],
     pub rule: &'static str,
+    pub custom_gen: Option<fn(u64, &Profile) -> crate::engine::Case>,
 }
 
 pub fn explorer_plan(prop: &str) -> Option<Plan> {
@@ -26,8 +28,9 @@ pub fn explorer_plan(prop: &str) -> Option<Plan> {
             p.rounds = (2, 6);
             Plan {
                 profile: p,
-                cases: (1600, 40000),
+                cases: (12800, 200000),
                 required: &["forests_checked", "tr_item_child_to_bucket", "tr_split_collapsed", "tr_bucket_resplit", "tr_trees_removed", "tr_trees_added", "builds_multithread"],
+                custom_gen: None,
                 rule: "case = seeded configuration (metric, dims, ids, values) + history ((add|overwrite|append|del|clear)* build)+; after every successful build the raw LMDB dump is decoded by the reference decoder and walked (C01 oracle); non-trivial+distinct = distinct forest shape hashes (split/bucket/item-child structure with depths and bucket sizes) among forests that contain at least one split",
             }
         }
@@ -38,8 +41,9 @@ pub fn explorer_plan(prop: &str) -> Option<Plan> {
             p.max_items = 300;
             Plan {
                 profile: p,
-                cases: (700, 14000),
+                cases: (8000, 120000),
                 required: &["exact_queries", "builds_ok"],
+                custom_gen: None,
                 rule: "case = explorer history; after every successful build 5 queries (by_vector: stored / perturbed / zero / random vector; by_item) with search_k=usize::MAX and count in {0,1,3,n-1,n,n+5,random} are compared with the f64 brute-force oracle over the shadow model; non-trivial+distinct = distinct forest shapes with at least one split on which queries ran",
             }
         }
@@ -51,8 +55,9 @@ pub fn explorer_plan(prop: &str) -> Option<Plan> {
             p.ops_per_round = (0, 90);
             Plan {
                 profile: p,
-                cases: (260, 4000),
+                cases: (6000, 90000),
                 required: &["lattice_queries", "lattice_monotone_pairs", "lattice_by_item_eq_by_vector", "lattice_default_budget_compared", "lattice_huge_count_default_budget", "lattice_filter_partial", "lattice_filter_disjoint"],
+                custom_gen: None,
                 rule: "case = explorer history; on every built state a lattice of (count, search_k ladder, oversampling, candidates) queries runs on one read view; non-trivial+distinct = distinct forest shapes with at least one split on which the lattice ran",
             }
         }
@@ -66,8 +71,9 @@ pub fn explorer_plan(prop: &str) -> Option<Plan> {
             p.ops_per_round = (5, 80);
             Plan {
                 profile: p,
-                cases: (500, 10000),
+                cases: (6000, 90000),
                 required: &["routing_margins_checked", "routing_self_lookups", "routing_items_with_clean_tree"],
+                custom_gen: None,
                 rule: "case = explorer history with >=3 rounds and small buckets; after every build each (split, item below it) pair has its margin recomputed with arroy's own margin function on the stored bytes and compared with the side the item lies on; self-lookups with search_k=1 for items that have a clean tree; non-trivial+distinct = distinct forest shapes with splits",
             }
         }
@@ -83,8 +89,9 @@ pub fn explorer_plan(prop: &str) -> Option<Plan> {
             p.memory = vec![None];
             Plan {
                 profile: p,
-                cases: (900, 20000),
+                cases: (10000, 150000),
                 required: &["store_probes", "store_full_iters", "store_reader_checks", "overwrites", "del_present", "del_absent", "aborts"],
+                custom_gen: None,
                 rule: "case = explorer history over 1-3 indexes with all-bit-pattern values; after every operation (in the write txn) and after every commit/abort (fresh read txn) contains_item/item_vector/iter/is_empty and the reader's id set are compared bit-for-bit with the shadow model; non-trivial+distinct = distinct forest shapes with splits (builds interleaved) — histories themselves are all distinct by seed",
             }
         }
@@ -103,8 +110,9 @@ pub fn explorer_plan(prop: &str) -> Option<Plan> {
             p.threads = vec![1, 2];
             Plan {
                 profile: p,
-                cases: (2500, 50000),
+                cases: (40000, 600000),
                 required: &["open_Ok", "open_NeedBuild", "open_MissingMetadata", "open_wrong_metric", "del_absent", "badlen_rejected", "aborts"],
+                custom_gen: None,
                 rule: "case = short explorer history over 1-3 indexes; after every single operation (in-txn) and after every commit/abort (fresh read txn) Reader::open (right and wrong metric) and need_build are compared with the model's staleness; non-trivial+distinct = distinct forest shapes with splits (kept for uniformity) — the verdict-bearing count is open_* / need_build evaluations",
             }
         }
@@ -119,8 +127,9 @@ pub fn explorer_plan(prop: &str) -> Option<Plan> {
             p.memory = vec![None, Some(0)];
             Plan {
                 profile: p,
-                cases: (450, 8000),
+                cases: (8000, 120000),
                 required: &["isolation_dumps_compared", "isolation_foreign_entries", "op_clear", "op_change_metric", "builds_ok"],
+                custom_gen: None,
                 rule: "case = explorer history over 2-4 indexes (adjacent numbers, 0/1/255/256/65534/65535, random; per-index metric; ids at the u32 edges); around every operation the raw dump restricted to the other indexes' prefixes is compared byte for byte; non-trivial+distinct = distinct forest shapes with splits of the operated indexes",
             }
         }
@@ -138,9 +147,10 @@ pub fn explorer_plan(prop: &str) -> Option<Plan> {
             p.n_trees = vec![None, Some(1), Some(3), Some(5)];
             Plan {
                 profile: p,
-                cases: (120, 3000),
-                required: &["builds_with_memory_hint", "forests_checked", "exact_queries"],
-                rule: "case = explorer history with available_memory in {0, 1 page, 3 pages, ~half the items, ~the items, 1 MiB, ample, unset} and item counts on both sides of the 200-item minimum batch; every build is bounded by the logical poll clock and followed by the C01 walker and exact queries; non-trivial+distinct = distinct forest shapes with splits",
+                cases: (600, 12000),
+                required: &["builds_with_memory_hint", "forests_checked", "exact_queries", "c14_batch_fits_one_bucket", "c14_items_above_min_batch"],
+                custom_gen: Some(c14::gen_case),
+                rule: "case = first build over N0 in {1,150,199,200,201,260,450,1000(,3000)} items then 0-2 incremental rounds (insert 1/50/201/400, delete 0/10/half), dims {3,16,64,130,256}, split_after {unset,1,20,200,250,300}, available_memory in {0, 1 page, 3 pages, ~half the items, ~the items, random, ample, unset}; every build is bounded by the logical poll clock and followed by the C01 walker and exact queries; non-trivial+distinct = distinct forest shapes with splits",
             }
         }
         "C15" => {
@@ -153,8 +163,9 @@ pub fn explorer_plan(prop: &str) -> Option<Plan> {
             p.ops_per_round = (0, 70);
             Plan {
                 profile: p,
-                cases: (700, 15000),
+                cases: (8000, 120000),
                 required: &["opt_empty", "opt_single_bucket", "opt_explicit_trees", "opt_auto_trees", "opt_capacity_checked", "tr_trees_added", "tr_trees_removed"],
+                custom_gen: None,
                 rule: "case = explorer history whose build options are re-drawn between rounds (tree count grows and shrinks, capacity around the item count, dimension 1 included); after every build Reader-visible tree count, bucket sizes and searchability are compared with the request; non-trivial+distinct = distinct forest shapes with splits",
             }
         }
@@ -169,8 +180,9 @@ pub fn explorer_plan(prop: &str) -> Option<Plan> {
             p.memory = vec![None];
             Plan {
                 profile: p,
-                cases: (500, 10000),
+                cases: (8000, 120000),
                 required: &["badlen_rejected", "append_refused", "append_ok", "append_twin_compared", "del_absent", "rejected_dumps_compared"],
+                custom_gen: None,
                 rule: "case = explorer history with wrong-length add/append/search, appends relative to the current maximum key over several indexes, and deletes of absent ids; the raw dump before and after every rejected call must be identical, error variants and fields exact, a valid append byte-identical to add_item; non-trivial+distinct = distinct forest shapes with splits",
             }
         }
@@ -186,8 +198,9 @@ pub fn explorer_plan(prop: &str) -> Option<Plan> {
             p.memory = vec![None];
             Plan {
                 profile: p,
-                cases: (400, 8000),
+                cases: (6000, 90000),
                 required: &["metric_change_leaves_checked", "metric_change_old_refused", "metric_change_same_unchanged", "exact_queries"],
+                custom_gen: None,
                 rule: "case = explorer history in which rounds may start with prepare_changing_distance between any ordered pair of the 7 metrics (neighbouring indexes present, dims not multiples of 64); raw leaves, API read-back, need_build, neighbours' bytes and, after the rebuild, the C01 walker and exact by_vector/by_item queries are checked; non-trivial+distinct = distinct forest shapes with splits after a metric change",
             }
         }
@@ -204,8 +217,9 @@ pub fn explorer_plan(prop: &str) -> Option<Plan> {
             p.sparse_ids = false;
             Plan {
                 profile: p,
-                cases: (330, 6000),
+                cases: (2640, 40000),
                 required: &["forests_checked", "lattice_queries", "store_full_iters"],
+                custom_gen: None,
                 rule: "case = explorer history whose vectors come from one of 9 degenerate families (one vector repeated, k distinct repeated, zeros mixed in, points on a line, coords in {0,+-1}, huge magnitudes, subnormals, NaN/inf components, constant coordinates), all 7 metrics; builds are bounded by the logical poll clock, then walker + store check + query lattice without the accuracy clause; non-trivial+distinct = distinct forest shapes with splits",
             }
         }
